@@ -20,6 +20,7 @@ inductive Exc where
   | ZeroDivisionError | OverflowError | FloatingPointError | ArithmeticError
   | ValueError | LinAlgError | MemoryError
   | TypeError | IndexError | KeyError | AssertionError | UnboundLocalError
+  | OSError | FileNotFoundError | IsADirectoryError | PermissionError | NotImplementedError | RuntimeError
 deriving Repr, DecidableEq, Inhabited
 
 def Exc.name : Exc → String
@@ -28,6 +29,9 @@ def Exc.name : Exc → String
   | .ValueError => "ValueError" | .LinAlgError => "LinAlgError" | .MemoryError => "MemoryError"
   | .TypeError => "TypeError" | .IndexError => "IndexError" | .KeyError => "KeyError"
   | .AssertionError => "AssertionError" | .UnboundLocalError => "UnboundLocalError"
+  | .OSError => "OSError" | .FileNotFoundError => "FileNotFoundError" | .IsADirectoryError => "IsADirectoryError"
+  | .PermissionError => "PermissionError" | .NotImplementedError => "NotImplementedError"
+  | .RuntimeError => "RuntimeError"
 
 /-- proper superclasses (Python / NumPy class hierarchy, below `Exception`) -/
 def Exc.parent : Exc → Option Exc
@@ -35,6 +39,10 @@ def Exc.parent : Exc → Option Exc
   | .OverflowError => some .ArithmeticError
   | .FloatingPointError => some .ArithmeticError
   | .LinAlgError => some .ValueError
+  | .FileNotFoundError => some .OSError
+  | .IsADirectoryError => some .OSError
+  | .PermissionError => some .OSError
+  | .NotImplementedError => some .RuntimeError
   | _ => none
 
 /-- an `except` clause naming `handlers` catches `e` iff it names `e` or a superclass -/
@@ -65,6 +73,23 @@ arithmetic, allocation) can raise on validated input -/
 def kernelRaises : List Exc :=
   [.ZeroDivisionError, .OverflowError, .FloatingPointError, .ArithmeticError, .ValueError,
    .LinAlgError, .MemoryError]
+
+/-- what writing the requested output files (`--output-basic-input`, `--output-cmdline`) does: the stage
+between the construction of the model and the compute loop -/
+inductive Output where
+  | notRequested | written | raises (e : Exc)
+deriving Repr, DecidableEq, Inhabited
+
+/-- the output stage of `main` with its `try … except`: `none` = carry on with the computation -/
+def wrapOutput (handlers : List String) : Output → Option Outcome
+  | .notRequested => none
+  | .written => none
+  | .raises e => if caughtBy handlers e then some .diag else some (.crash e)
+
+/-- exceptions the output stage can raise on an accepted model: `open` on a path that does not exist, is a
+directory or is not writable; a load combination the BASIC input format cannot express -/
+def outputRaises : List Exc :=
+  [.OSError, .FileNotFoundError, .IsADirectoryError, .PermissionError, .NotImplementedError]
 
 inductive NumClass where
   | neg | zero | pos | inf | nan
